@@ -178,6 +178,21 @@ Section Client.
   Definition remote_store_index (budget : N) (auth : bytes) (c : cfg) (d : idir) (name : bytes) (ix : index_t) : (bool * N) * idir :=
     let (r, d') := index_handle index_t idx_decode idx_encode c d (mk_req PUT ([slash] ++ name) auth (idx_encode ix)) in
     (store_object budget (const_script r), d').
+
+  (* an index server in front of a REMOTE index store (index-server -s http://...): the handler's
+     h.s.GetIndex is RemoteHTTPIndex.GetIndex.  Its NoSuchObject is not an os "does not exist"
+     error (os.IsNotExist(err) = false), so HTTPIndexHandler.get answers 400 for it, like for
+     any other failure. *)
+  Definition index_get_proxied (r : index_result) : response :=
+    match r with
+    | IData ix => resp 200 (idx_encode ix)
+    | IMissing => resp 400 []
+    | IErr => resp 400 []
+    end.
+
+  (* client -> index server -> remote index store answering according to [rs_up] *)
+  Definition proxied_get_index (budget budget_up : N) (rs_up : nat -> resp_ev) : index_result * N :=
+    get_index budget (const_script (index_get_proxied (fst (get_index budget_up rs_up)))).
 End Client.
 
 (* ---------- request bodies across retries ----------
